@@ -90,6 +90,25 @@ class C12(Prop):
             c["grp"] = "auto" if c["op"] == "auto" else "n"
         return out
 
+    def corruptions(self, recs):
+        import copy
+        from .mutate import first
+        out = []
+        for r in first(recs, lambda r: r["op"] == "norm" and r["status"] == "plve" and r["x"]["denotes"]):
+            m = copy.deepcopy(r)
+            m["status"] = "accept"
+            m["result"] = m["x"]["bits"]
+            out.append((m, "C12.accept"))
+        for r in first(recs, lambda r: r["op"] == "norm" and r["status"] == "accept" and r["x"]["plain"]):
+            m = copy.deepcopy(r)
+            m["status"] = "plve"
+            out.append((m, "C12.usable"))
+        for r in first(recs, lambda r: r["op"] == "auto"):
+            m = copy.deepcopy(r)
+            m["result"] = [1, 1]
+            out.append((m, "C12.auto"))
+        return out
+
     def records(self, cases, results):
         for r, c in zip(results, cases):
             r["grp"] = c["grp"]
